@@ -559,7 +559,18 @@ class Recorder final : public StepInterface
         {
             TrackSlotId ts{i};
             if (!d.track_id[ts])
+            {
+                // documented in StepData.hh: "The detector ID for inactive threads is always
+                // false" - consumers such as copy_steps()/SimpleCalo select slots by it alone
+                if (!d.detector.empty() && d.detector[ts])
+                {
+                    ++stale_detector_slots;
+                    if (stale_detector_first.empty())
+                        stale_detector_first = "slot " + std::to_string(i) + " detector "
+                                               + std::to_string(d.detector[ts].unchecked_get());
+                }
                 continue;
+            }
             // with a detector map the consumer must ignore slots without a detector
             if (!d.detector.empty() && !d.detector[ts])
                 continue;
@@ -599,6 +610,8 @@ class Recorder final : public StepInterface
     Filters filters_;
     StepSelection selection_{StepSelection::all()};
     std::vector<StepRec> steps;
+    uint64_t stale_detector_slots{0};  // vacant slots that still carry a detector id
+    std::string stale_detector_first;
     unsigned const* call_stamp{nullptr};
     // concurrent streams (C07): records of stream s > 0 go to per_stream[s-1] (pre-sized,
     // so that threads never touch shared containers)
@@ -744,6 +757,7 @@ struct LoopConfig
                               Outcome::unchanged, Outcome::scatter_three, Outcome::annihilate,
                               Outcome::absorb_subcut_positron};
     double lowest_electron_energy{0.02};
+    double fixed_step{0};  // PhysicsParamsOptions::fixed_step_limiter (0: off)
     bool bookkeeping{false};
     std::vector<StepActionOrder> probes;  // orders at which a ProbeAction is inserted
     // scoring variants (C17)
@@ -905,6 +919,7 @@ inline std::unique_ptr<LoopProblem> make_loop_problem(LoopConfig const& cfg)
         pin.materials = P->material;
         pin.options.secondary_stack_factor = cfg.secondary_stack_factor;
         pin.options.lowest_electron_energy = MevEnergy{cfg.lowest_electron_energy};
+        pin.options.fixed_step_limiter = cfg.fixed_step;
         pin.action_registry = action_reg.get();
         auto add = [&](std::string label, ParticleId pid, double xs, bool zero_first, bool at_rest,
                        double dedx) {
